@@ -104,3 +104,101 @@ func TestKVStandinIncludeCycles(t *testing.T) {
 		}
 	}
 }
+
+// Deep acyclic graphs: a chain of k files (k = 2..9), the last of which includes two siblings d and e, with d
+// including e as well (a diamond below a chain: no cycle). The chain of including files is handed from a file to
+// the goroutines of ALL files it includes, so the chains of siblings must not share storage; e holds prices only,
+// so loading it twice is harmless. Every load (40 per depth) must succeed.
+func TestKVStandinIncludeCyclesDeepDiamond(t *testing.T) {
+	for k := 2; k <= 9; k++ {
+		dir := t.TempDir()
+		write := func(name, content string) {
+			if err := os.WriteFile(filepath.Join(dir, name), []byte(content), 0o644); err != nil {
+				t.Fatal(err)
+			}
+		}
+		for i := 0; i < k-1; i++ {
+			write(fmt.Sprintf("f%d.knut", i), fmt.Sprintf("include \"f%d.knut\"\n", i+1))
+		}
+		write(fmt.Sprintf("f%d.knut", k-1), "include \"d.knut\"\ninclude \"e.knut\"\n")
+		var d strings.Builder
+		for i := 0; i < 400; i++ {
+			fmt.Fprintf(&d, "2020-01-%02d price AAPL %d.5 USD\n", i%28+1, 100+i)
+		}
+		d.WriteString("include \"e.knut\"\n")
+		write("d.knut", d.String())
+		write("e.knut", "2020-01-01 price USD 0.9 CHF\n")
+		for run := 0; run < 40; run++ {
+			ctx, cancel := context.WithCancel(context.Background())
+			done := make(chan error, 1)
+			go func() {
+				_, err := FromPath(ctx, registry.New(), filepath.Join(dir, "f0.knut"))
+				done <- err
+			}()
+			select {
+			case err := <-done:
+				if err != nil {
+					t.Fatalf("chain of %d files above a diamond, run %d: loading an acyclic journal failed: %v", k, run, err)
+				}
+			case <-time.After(10 * time.Second):
+				cancel()
+				t.Fatalf("chain of %d files above a diamond, run %d: journal.FromPath did not return within 10s", k, run)
+			}
+			cancel()
+		}
+	}
+}
+
+// Errors in one of several files: "an error in any included file fails the whole command" - it must not be
+// swallowed and the loader must not hang while the other files are still being parsed. A small file with an error
+// (a directive that parses but cannot be converted: 30 February; a syntax error; a missing include) sits next to
+// a large file (60,000 transactions) that is still being parsed when the error occurs - as the included file of a
+// large root, and as the root of a large included file. Every load must return an error within the deadline.
+func TestKVStandinIncludeCyclesErrorInOneFile(t *testing.T) {
+	var big strings.Builder
+	big.WriteString("2020-01-01 open Assets:Account\n2020-01-01 open Expenses:Groceries\n\n")
+	for i := 0; i < 60000; i++ {
+		fmt.Fprintf(&big, "2020-01-%02d \"purchase number %d\"\nAssets:Account Expenses:Groceries %d.25 CHF\n\n", 2+i%28, i, i)
+	}
+	bads := map[string]string{
+		"conversion":      "2023-02-30 open Assets:Nowhere\n",
+		"syntax":          "2023-02-10 opne Assets:Nowhere\n",
+		"missing-include": "include \"nowhere.knut\"\n",
+	}
+	for name, bad := range bads {
+		for _, badIsRoot := range []bool{false, true} {
+			dir := t.TempDir()
+			write := func(name, content string) string {
+				p := filepath.Join(dir, name)
+				if err := os.WriteFile(p, []byte(content), 0o644); err != nil {
+					t.Fatal(err)
+				}
+				return p
+			}
+			var root string
+			if badIsRoot {
+				write("big.knut", big.String())
+				root = write("root.knut", "include \"big.knut\"\n"+bad)
+			} else {
+				write("bad.knut", bad)
+				root = write("root.knut", "include \"bad.knut\"\n\n"+big.String())
+			}
+			ctx, cancel := context.WithCancel(context.Background())
+			done := make(chan error, 1)
+			go func() {
+				_, err := FromPath(ctx, registry.New(), root)
+				done <- err
+			}()
+			select {
+			case err := <-done:
+				if err == nil {
+					t.Errorf("%s error (in the root: %v): the loader reported no error", name, badIsRoot)
+				}
+			case <-time.After(20 * time.Second):
+				cancel()
+				t.Fatalf("%s error (in the root: %v): journal.FromPath did not return within 20s", name, badIsRoot)
+			}
+			cancel()
+		}
+	}
+}
